@@ -54,6 +54,20 @@ def gen_cases(ck):
                       "kmin": 0, "kmax": [0, 2][i % 2], "param_mode": "uniform", "angle": 0.0, "scale": float(10.0 ** ck.rng.uniform(-1, 1)),
                       "shift": [0.0, 0.0], "p_rev": 0.5, "shifts": True, "relabel": False, "fit": ["dlite", "taubinSVD"][i % 2],
                       "method": [None, "lsq_linear"][(i // 2) % 2], "ne": None, "axis_ridge": True})
+    for i in range(4 if ck.tier == "quick" else 24):
+        # straight interfaces with interior points, the algebraic fit, after an earlier analysis of a tiny tissue in the same process
+        cases.append({"type": "tissue", "seed": int(ck.rng.integers(1 << 30)), "tissue": ["random", "jitter", "hex"][i % 3], "sites": int(ck.rng.integers(24, 44)),
+                      "subset": None, "min_ridge": 0.004, "mobius": False, "strength": 1.0, "kmin": 1, "kmax": 4, "param_mode": "uniform",
+                      "angle": float(ck.rng.uniform(0, 2 * math.pi)), "scale": float(10.0 ** ck.rng.uniform(-1, 1)), "shift": [0.0, 0.0], "p_rev": 0.5,
+                      "shifts": True, "relabel": False, "fit": "taubinSVD", "method": [None, "lsq", "lsq_linear"][i % 3], "ne": None, "after_small_lsq": True})
+    for i in range(6 if ck.tier == "quick" else 40):
+        # two four-fold junctions joined by one interface, the interfaces through each of them exactly in line (two-point straight
+        # interfaces; the angle between opposite tangents is pi up to rounding), default options
+        cases.append({"type": "tissue", "seed": int(ck.rng.integers(1 << 30)), "tissue": "quad2", "sites": int(ck.rng.integers(24, 50)), "subset": None,
+                      "min_ridge": 0.004, "mobius": False, "strength": 1.0, "kmin": 0, "kmax": 0, "param_mode": "uniform",
+                      "angle": [0.0, float(ck.rng.uniform(0, 2 * math.pi))][i % 2], "scale": float(10.0 ** ck.rng.uniform(-1, 1)),
+                      "shift": [0.0, 0.0] if i % 2 == 0 else [float(ck.rng.normal()), float(ck.rng.normal())], "p_rev": 0.5, "shifts": True,
+                      "relabel": bool(i % 2), "fit": ["dlite", "taubinSVD"][i % 2], "method": [None, "lsq", "lsq_linear"][i % 3], "ne": None})
     for i in range(6 if ck.tier == "quick" else 40):
         # straight tissues whose inner interfaces are given by their two end points (also those that reach the outline), the outline
         # itself sampled with interior points: resampled with the default options
@@ -84,8 +98,20 @@ def run_case(ck, case, reqs, pending):
         two_point = [ids for ids in sc.bm.ridge_points.values() if len(ids) == 2]
         replace = not any(len(cov.get(ids[0], ())) < 3 and len(cov.get(ids[1], ())) < 3 for ids in two_point)
         ck.count("resampled_with_default_replace_short_edges" if replace else "resampled_without_replace")
+    earlier = case.get("after_small_lsq")
+    if earlier:
+        # the same process has analysed another tissue before (three cells around one junction, method 'lsq': more unknowns than
+        # equations, the fitting library gives up and the code falls back to NNLS); what was computed before must not matter
+        sc0 = statics.build_static({"type": "tissue", "seed": case["seed"] + 5, "tissue": "hex", "sites": 30, "subset": None, "around_junction": True,
+                                    "min_ridge": 0.004, "mobius": False, "kmin": 0, "kmax": 0, "scale": 1.0})
+        if sc0 is not None:
+            try:
+                physical.run_static(sc0, fit="dlite", method="lsq")
+                ck.count("earlier_small_lsq_solve")
+            except Exception as ex:
+                ck.count("earlier_small_lsq_solve_raised_" + type(ex).__name__)
     try:
-        ph = physical.run_static(sc, fit=fit, method=method, ne=ne, replace=replace)
+        ph = physical.run_static(sc, fit=fit, method=method, ne=ne, replace=replace, reset_err=not earlier)
     except Exception as ex:
         ck.fail("static inference completes on an equilibrium tissue", f"{type(ex).__name__}: {str(ex)[:160]}", case)
         ck.case(case); return
@@ -94,6 +120,10 @@ def run_case(ck, case, reqs, pending):
         ck.count("rejected_no_equations"); return
     A = ph.A
     n = A.shape[1]
+    if len(ph.used) != len(ph.ridges) or n != len(ph.ridges):
+        ck.fail("with the default options every internal interface is an unknown of the force balance and gets its tension from it",
+                f"{len(ph.ridges)} internal interfaces, {len(ph.used)} in the system ({n} columns)", case)
+        return
     # ---------------- the ground truth is in balance (numerical re-evaluation of maxwell_balance / conformal_balance)
     tau = np.array([ph.truth[rg] for rg in ph.ridges])
     # the force-balance system of the ground truth, built from the topology alone: two rows for every junction where at least
